@@ -96,6 +96,7 @@ enum Expect {
     /// (ec exact, response) — body text of envelope rejections is not pinned
     Reject(u32),
     Dispatched(Resp),
+    ContractBroken(String),
 }
 
 fn normalise(res: Result<Message, RepeError>, req: &Message) -> Resp {
@@ -134,7 +135,27 @@ fn predict(twin: &Built, r: &Req, msg: &Message) -> Expect {
         return if respond { Expect::Reject(6) } else { Expect::None };
     };
     // dispatched: the handler runs exactly once, notify or not
+    let seen_before = twin.probe.seen.lock().unwrap().len();
     let res = h.handle(msg);
+    // Independent statement of the decode contract: an undecodable body / unacceptable
+    // format must be answered with the specified code and must not reach the handler
+    // closure (the twin shares the implementation, so it alone could not tell).
+    if let QuerySel::Kind(k) = &r.query
+        && let Some(Err(code)) = decode_contract(*k, r.body_format, &msg.body)
+    {
+        let ran = twin.probe.seen.lock().unwrap().len() > seen_before;
+        let got = match &res {
+            Ok(m) => m.header.ec,
+            Err(e) => e.to_error_code() as u32,
+        };
+        if ran || got != code {
+            return Expect::ContractBroken(format!(
+                "kind {k:?} body_format {} body {:?}: the documented contract demands code {code} without running the handler; the in-process dispatch gave code {got}, handler ran: {ran}",
+                r.body_format,
+                String::from_utf8_lossy(&msg.body)
+            ));
+        }
+    }
     if respond {
         Expect::Dispatched(normalise(res, msg))
     } else {
@@ -303,6 +324,11 @@ pub fn check(c: &Case) -> CheckResult {
         let e = predict(&twin, r, msg);
         expected.push(Some((msg.header.id, e)));
     }
+    for e in expected.iter().flatten() {
+        if let (_, Expect::ContractBroken(msg)) = e {
+            return Err(Fail::new("decode-contract", msg.clone()));
+        }
+    }
     let twin_seen = twin.probe.take();
     let mwc = |b: &Built| if nmw > 0 { b.probe.mw(0) } else { 0 };
     let twin_mw = mwc(&twin);
@@ -394,6 +420,7 @@ pub fn check(c: &Case) -> CheckResult {
                         String::from_utf8_lossy(&r.body)
                     );
                 }
+                Expect::ContractBroken(_) => unreachable!(),
                 Expect::Dispatched(want) => {
                     let r = by_id.get(id).ok_or_else(|| {
                         Fail::new(format!("{name}:missing-response"), format!("{name}: no response for dispatched request {id:#x}"))
@@ -514,6 +541,7 @@ fn req() -> BoxedStrategy<Req> {
             BodyShape::Truncated,
             BodyShape::Random,
             BodyShape::Empty,
+            BodyShape::BadUtf8Json,
         ]),
         prop::bool::weighted(0.25),
         prop_oneof![Just(0u32), any::<u32>()],
